@@ -139,6 +139,25 @@ def run_iban(shard, mon, S):
                         mon.viol(f"cross_country_reassembly_component_wrong:{comp}", {**w, "other": other, "iban": t2}, want, got.brief())
                 if getattr(o4.value.bban, "country_code", None) != other:
                     mon.viol("cross_country_reassembly_keeps_foreign_bban_country", {**w, "other": other}, other, getattr(o4.value.bban, "country_code", None))
+            # the IBAN's own BBAN object handed to the BBAN constructor of another country (and the IBAN object to the
+            # IBAN constructor): new objects of the requested country; the decomposed IBAN stays what it was
+            for other in (compat.get(cc, [])[:1] or [c_ for c_ in ("DE", "AT") if c_ != cc][:1]):
+                o6 = observe(S.BBAN, other, ib.bban)
+                if o6.ok and (o6.value.country_code != other or str(o6.value) != bban):
+                    mon.viol("bban_constructor_result_not_of_requested_country", {**w, "other": other}, [other, bban], [o6.value.country_code, str(o6.value)])
+            if ib.bban.country_code != cc or str(ib.bban) != bban:
+                mon.viol("decomposed_iban_changed_after_use_as_constructor_argument:BBAN", w, [s, cc], [str(ib), getattr(ib.bban, "country_code", None)])
+            bban_id = id(ib.bban)
+            observe(S.IBAN, ib)
+            observe(S.IBAN, ib, allow_invalid=True)
+            mon.tally("decomposition_reread_after_reuse_as_argument")
+            if str(ib) != s or ib.bban.country_code != cc or str(ib.bban) != bban or id(ib.bban) != bban_id:
+                mon.viol("decomposed_iban_changed_after_use_as_constructor_argument:IBAN", w, [s, cc], [str(ib), getattr(ib.bban, "country_code", None), "bban object replaced" if id(ib.bban) != bban_id else ""])
+            for comp in COMPONENTS:
+                want = bban[pos[comp][0] : pos[comp][1]] if comp in pos else ""
+                gi = observe(getattr, ib, comp)
+                if not gi.ok or gi.value != want:
+                    mon.viol(f"component_changed_after_use_as_constructor_argument:{comp}", w, want, gi.brief())
             if len(ib) != len(s) or ib.length != len(s) or ib.compact != s:
                 mon.viol("length_or_compact_wrong", w, len(s), [ib.length, ib.compact])
         # short purely alphabetic fields (currency codes and the like): every possible value, because accessors
